@@ -5,6 +5,7 @@ import (
 	"go/token"
 	"go/types"
 	"math"
+	"strconv"
 	"strings"
 	"sync"
 
@@ -158,19 +159,20 @@ func (e gexpr) eval(v int64, bits int) (int64, bool) {
 
 // GateResult is the outcome of the analysis for one function.
 type GateResult struct {
-	Fn       *ssa.Function
-	Subjects map[ssa.Value]bool
-	Domain   ZSet
-	Reach    map[*ssa.BasicBlock]ZSet
-	Pre      map[*ssa.BasicBlock]bool // block may execute before the subject is defined
-	Atoms    int                      // number of refining conditions found
-	Opaque   []ssa.Instruction        // conditions that depend on the subject but are not atoms
-	Bits     int
-	Edge     map[[2]*ssa.BasicBlock]ZSet // reach set per CFG edge
-	InModule func(fn *ssa.Function) bool // predicate helpers of the module may be looked into
-	preds    map[*ssa.Function]*predSets
-	Tables   func(g *ssa.Global) *gtable // constant tables of the module (nil: none)
-	Relied   map[*ssa.Global]bool        // tables the result depends on (must be initialiser-only)
+	Fn         *ssa.Function
+	Subjects   map[ssa.Value]bool
+	Domain     ZSet
+	Reach      map[*ssa.BasicBlock]ZSet
+	Pre        map[*ssa.BasicBlock]bool // block may execute before the subject is defined
+	Atoms      int                      // number of refining conditions found
+	Opaque     []ssa.Instruction        // conditions that depend on the subject but are not atoms
+	Bits       int
+	Edge       map[[2]*ssa.BasicBlock]ZSet // reach set per CFG edge
+	predsSlice map[string]*predSets        // two-argument predicates with a constant table, per (function, table)
+	InModule   func(fn *ssa.Function) bool // predicate helpers of the module may be looked into
+	preds      map[*ssa.Function]*predSets
+	Tables     func(g *ssa.Global) *gtable // constant tables of the module (nil: none)
+	Relied     map[*ssa.Global]bool        // tables the result depends on (must be initialiser-only)
 }
 
 func intConst(v ssa.Value) (int64, bool) {
@@ -340,7 +342,10 @@ type atom struct {
 
 // predSets over-approximates a one-argument boolean helper: the argument values for which
 // it can return true, and those for which it can return false.
-type predSets struct{ T, F ZSet }
+type predSets struct {
+	T, F   ZSet
+	Relied map[*ssa.Global]bool // package-level tables the classification read (semantic form)
+}
 
 func flipOp(op token.Token) token.Token {
 	switch op {
@@ -377,12 +382,29 @@ func negOp(op token.Token) token.Token {
 func (g *GateResult) atomOf(cond ssa.Value) (*atom, bool) {
 	neg := false
 	for {
-		u, ok := cond.(*ssa.UnOp)
-		if !ok || u.Op != token.NOT {
-			break
+		if u, ok := cond.(*ssa.UnOp); ok && u.Op == token.NOT {
+			neg = !neg
+			cond = u.X
+			continue
 		}
-		neg = !neg
-		cond = u.X
+		// `c == true`, `true == c`, `c != false`, … (`switch true { case n < 12: … }`, `if ok == true`)
+		if bo, ok := cond.(*ssa.BinOp); ok && (bo.Op == token.EQL || bo.Op == token.NEQ) {
+			var other ssa.Value
+			var k *ssa.Const
+			if c, isC := bo.X.(*ssa.Const); isC && c.Value != nil && c.Value.Kind() == constant.Bool {
+				k, other = c, bo.Y
+			} else if c, isC := bo.Y.(*ssa.Const); isC && c.Value != nil && c.Value.Kind() == constant.Bool {
+				k, other = c, bo.X
+			}
+			if k != nil {
+				if constant.BoolVal(k.Value) != (bo.Op == token.EQL) {
+					neg = !neg
+				}
+				cond = other
+				continue
+			}
+		}
+		break
 	}
 	if call, ok := cond.(*ssa.Call); ok {
 		// slices.Contains(<literal of integer constants>, e): membership in a constant set
@@ -400,6 +422,50 @@ func (g *GateResult) atomOf(cond ssa.Value) (*atom, bool) {
 		}
 	}
 	if call, ok := cond.(*ssa.Call); ok && g.InModule != nil {
+		// helper(<literal of integer constants>, e) or helper(e, <literal>): a two-argument
+		// predicate of the module with its table fixed at this call site
+		if f := call.Call.StaticCallee(); f != nil && g.InModule(f) && len(call.Call.Args) == 2 && len(f.Params) == 2 && len(f.Blocks) > 0 {
+			for si := 0; si < 2; si++ {
+				tbl, ok := constIntTable(call.Call.Args[si])
+				if !ok || !isIntType(f.Params[1-si].Type()) {
+					continue
+				}
+				e := g.derive(call.Call.Args[1-si], 0)
+				if e == nil || len(e.ops) != 0 {
+					continue
+				}
+				semPredMu.Lock()
+				sp := semPredSliceByProg[f.Prog]
+				semPredMu.Unlock()
+				if sp == nil {
+					continue
+				}
+				if g.predsSlice == nil {
+					g.predsSlice = map[string]*predSets{}
+				}
+				mk := f.String()
+				for _, v := range tbl {
+					mk += "," + strconv.FormatInt(v, 10)
+				}
+				ps, done := g.predsSlice[mk]
+				if !done {
+					ps = sp(f, g.Bits, tbl)
+					if ps != nil {
+						for tg := range ps.Relied {
+							g.Relied[tg] = true
+						}
+					}
+					g.predsSlice[mk] = ps
+				}
+				if ps != nil {
+					a := &atom{e: e, op: token.EQL, pred: ps}
+					if neg {
+						a.op = token.NEQ
+					}
+					return a, true
+				}
+			}
+		}
 		if f := call.Call.StaticCallee(); f != nil && g.InModule(f) && len(call.Call.Args) == 1 && len(f.Params) == 1 && len(f.Blocks) > 0 {
 			if e := g.derive(call.Call.Args[0], 0); e != nil && len(e.ops) == 0 {
 				if ps := g.predicate(f); ps != nil {
@@ -833,6 +899,32 @@ func AnalyseGate(fn *ssa.Function, subjects map[ssa.Value]bool, defBlock *ssa.Ba
 	return g
 }
 
+// constIntTable: like constIntSlice, but the constants in order.
+func constIntTable(v ssa.Value) ([]int64, bool) {
+	if _, ok := constIntSlice(v); !ok {
+		return nil, false
+	}
+	al := v.(*ssa.Slice).X.(*ssa.Alloc)
+	n := al.Type().Underlying().(*types.Pointer).Elem().Underlying().(*types.Array).Len()
+	out := make([]int64, n) // elements never stored stay zero, as in the literal
+	for _, r := range *al.Referrers() {
+		ia, ok := r.(*ssa.IndexAddr)
+		if !ok {
+			continue
+		}
+		i, _ := intConst(ia.Index)
+		for _, rr := range *ia.Referrers() {
+			if st, ok := rr.(*ssa.Store); ok {
+				c, _ := intConst(st.Val)
+				if i >= 0 && i < n {
+					out[i] = c
+				}
+			}
+		}
+	}
+	return out, true
+}
+
 // constIntSlice: v is a slice literal of integer constants (`[]int{16, 20, 24}`): a slice of
 // a local array all of whose elements are stored once, with constants, and nothing else.
 func constIntSlice(v ssa.Value) (map[int64]int64, bool) {
@@ -1035,6 +1127,8 @@ func (g *GateResult) atomTruth(a *atom, op token.Token, v int64) int {
 var (
 	semPredMu     sync.Mutex
 	semPredByProg = map[*ssa.Program]func(f *ssa.Function, bits int) *predSets{}
+	// the same for helpers that also take a slice of integer constants: `contains(list, n)`
+	semPredSliceByProg = map[*ssa.Program]func(f *ssa.Function, bits int, slice []int64) *predSets{}
 )
 
 func semPredOf(f *ssa.Function) func(f *ssa.Function, bits int) *predSets {
@@ -1054,6 +1148,11 @@ func (g *GateResult) predicate(f *ssa.Function) *predSets {
 	ps := g.predicateStruct(f)
 	if sp := semPredOf(f); ps == nil && sp != nil && len(f.Params) == 1 && isIntType(f.Params[0].Type()) {
 		ps = sp(f, g.Bits)
+		if ps != nil {
+			for tg := range ps.Relied {
+				g.Relied[tg] = true
+			}
+		}
 	}
 	g.preds[f] = ps
 	return ps
@@ -1090,7 +1189,25 @@ func (g *GateResult) predicateStruct(f *ssa.Function) *predSets {
 				// building an error value (fmt.Errorf("…%w", sentinel), errors.New): allowed in an
 				// error-returning predicate, and only that
 				if !isErr {
-					return nil
+					// a (value, ok) predicate may build its value in a local struct
+					okLocal := false
+					switch x := in.(type) {
+					case *ssa.Alloc:
+						_, okLocal = x.Type().Underlying().(*types.Pointer).Elem().Underlying().(*types.Struct)
+						okLocal = okLocal && !x.Heap
+					case *ssa.FieldAddr:
+						_, okLocal = x.X.(*ssa.Alloc)
+					case *ssa.Store:
+						if fa, isFA := x.Addr.(*ssa.FieldAddr); isFA {
+							_, okLocal = fa.X.(*ssa.Alloc)
+						} else {
+							_, okLocal = x.Addr.(*ssa.Alloc)
+						}
+					}
+					if !okLocal {
+						return nil
+					}
+					continue
 				}
 				if c, ok := in.(*ssa.Call); ok {
 					if n := calleeName(c); n != "fmt.Errorf" && n != "errors.New" {
